@@ -128,19 +128,208 @@ def expand_local_call(value, localfns, depth=0):
     return expand_local_call(new, localfns, depth + 1)
 
 
+def _local_values(init, selfname):
+    """locals of ops.__init__ that are bound exactly once to something a table entry may refer to by name:
+    a framework attribute (`add_ufunc = np.add`), a lambda / partial, or a dict of keyword arguments"""
+    counts, values = {}, {}
+    params = {a.arg for a in init.args.args + init.args.kwonlyargs}
+    for n in walk_no_nested(init):
+        if not isinstance(n, ast.Assign):
+            continue
+        for t in n.targets:
+            pairs = []
+            if isinstance(t, ast.Name):
+                pairs = [(t, n.value)]
+            elif isinstance(t, ast.Tuple) and isinstance(n.value, ast.Tuple) and len(t.elts) == len(n.value.elts):
+                pairs = list(zip(t.elts, n.value.elts))
+            for tt, vv in pairs:
+                if isinstance(tt, ast.Name) and tt.id not in params:
+                    counts[tt.id] = counts.get(tt.id, 0) + 1
+                    values[tt.id] = vv
+    ok = {}
+    for nm, v in values.items():
+        if counts[nm] != 1:
+            continue
+        if isinstance(v, (ast.Lambda, ast.Dict)) or (isinstance(v, ast.Attribute) and attr_chain(v)) or (isinstance(v, ast.Call) and norm(v.func) in ("partial", "functools.partial", "dict")):
+            ok[nm] = v
+    return ok
+
+
+class _Locals(ast.NodeTransformer):
+    def __init__(self, values):
+        self.values = values
+
+    def visit_Name(self, node):
+        if isinstance(node.ctx, ast.Load) and node.id in self.values:
+            from sa.cfg import _clone
+
+            return _clone(self.values[node.id])
+        return node
+
+    def visit_Lambda(self, node):
+        # parameters of a lambda shadow locals of the same name
+        shadow = {a.arg for a in node.args.args}
+        saved = self.values
+        self.values = {k: v for k, v in saved.items() if k not in shadow}
+        self.generic_visit(node)
+        self.values = saved
+        return node
+
+    def visit_Call(self, node):
+        self.generic_visit(node)
+        kws = []
+        for k in node.keywords:
+            v = k.value
+            if k.arg is None and isinstance(v, ast.Dict) and all(isinstance(x, ast.Constant) and isinstance(x.value, str) for x in v.keys):
+                kws += [ast.keyword(arg=x.value, value=y) for x, y in zip(v.keys, v.values)]  # **{"a": 1} -> a=1
+            elif k.arg is None and isinstance(v, ast.Call) and norm(v.func) == "dict" and not v.args:
+                kws += list(v.keywords)  # **dict(a=1) -> a=1
+            else:
+                kws.append(k)
+        node.keywords = kws
+        return node
+
+
+def resolve_locals(value, values):
+    """table entry with once-bound locals of __init__ written out and `**{...}` keyword dicts spread"""
+    if not values:
+        return value
+    stripped = copy.copy(value)
+    new = _Locals(values).visit(_strip_parents(value))
+    ast.fix_missing_locations(new)
+    from sa.core import set_parents
+
+    set_parents(new)
+    new._parent = getattr(value, "_parent", None)
+    return new
+
+
+def _strip_parents(node):
+    from sa.cfg import _clone
+
+    return _clone(node)
+
+
 def registrations(p, cls):
     init = cls.methods.get("__init__")
     if init is None:
         raise AnalysisError(f"{cls.qualname} has no __init__")
     selfname = init.node.args.args[0].arg
     localfns = {n.name: n for n in walk_no_nested(init.node) if isinstance(n, ast.FunctionDef)}
+    values = _local_values(init.node, selfname)
     regs = []
     for n in walk_no_nested(init.node):
         if isinstance(n, ast.Assign):
             for t in n.targets:
                 if isinstance(t, ast.Attribute) and isinstance(t.value, ast.Name) and t.value.id == selfname:
-                    regs.append(Registration(cls, t.attr, n, expand_local_call(n.value, localfns)))
+                    v = expand_local_call(n.value, localfns)
+                    v = resolve_locals(v, values)
+                    v = expand_local_call(v, localfns)
+                    regs.append(Registration(cls, t.attr, n, v))
+    # entries written as a loop over a literal table: `for name, arity in TABLE: ...; setattr(self, name, <entry>)`
+    for loop in [x for x in walk_no_nested(init.node) if isinstance(x, ast.For)]:
+        sets = [c for c in ast.walk(loop) if isinstance(c, ast.Call) and isinstance(c.func, ast.Name) and c.func.id == "setattr" and len(c.args) == 3 and isinstance(c.args[0], ast.Name) and c.args[0].id == selfname]
+        if not sets:
+            continue
+        rows = _literal_rows(p, cls.module, loop.iter)
+        if rows is None:
+            raise AnalysisError(f"unrecognised idiom: {cls.qualname}.__init__ fills the table with setattr() in a loop over `{norm(loop.iter)}`, which is not a literal table")
+        for row in rows:
+            for name, value in _unroll(loop, row, selfname):
+                v = expand_local_call(value, localfns)
+                v = resolve_locals(v, values)
+                v = expand_local_call(v, localfns)
+                ast.copy_location(v, loop)
+                regs.append(Registration(cls, name, loop, v))
     return regs
+
+
+def _literal_rows(p, module, it):
+    from sa.core import LiteralEvaluator, NotLiteral
+
+    try:
+        rows = LiteralEvaluator(p, module).eval(it)
+    except (NotLiteral, AnalysisError):
+        return None
+    try:
+        return [r if isinstance(r, (tuple, list)) else (r,) for r in rows]
+    except TypeError:
+        return None
+
+
+def _unroll(loop, row, selfname):
+    """one iteration of a table loop with the loop variables replaced by the row's constants: yields (name, entry
+    expression) for every setattr(self, name, entry) executed; constant `if` tests are decided, local rebinding
+    (`f = getattr(ns, name)`; `f = wrap(f)`) is written out"""
+    from sa.cfg import _clone
+
+    tg = loop.target
+    names = [tg.id] if isinstance(tg, ast.Name) else [e.id for e in tg.elts if isinstance(e, ast.Name)]
+    if len(names) != len(row) and isinstance(tg, ast.Name):
+        row = (tuple(row),)
+    env = {nm: ast.Constant(value=v) for nm, v in zip(names, row)}
+
+    class S(ast.NodeTransformer):
+        def visit_Name(self, n):
+            if isinstance(n.ctx, ast.Load) and n.id in env:
+                return _clone(env[n.id])
+            return n
+
+        def visit_Call(self, c):
+            self.generic_visit(c)
+            if isinstance(c.func, ast.Name) and c.func.id == "getattr" and len(c.args) == 2 and isinstance(c.args[1], ast.Constant) and isinstance(c.args[1].value, str):
+                return ast.copy_location(ast.Attribute(value=c.args[0], attr=c.args[1].value, ctx=ast.Load()), c)
+            return c
+
+    def const_test(t):
+        t = S().visit(_clone(t))
+        if isinstance(t, ast.Compare) and len(t.ops) == 1 and isinstance(t.left, ast.Constant) and isinstance(t.comparators[0], ast.Constant):
+            a, b = t.left.value, t.comparators[0].value
+            op = t.ops[0]
+            if isinstance(op, ast.Is):
+                return a is b
+            if isinstance(op, ast.IsNot):
+                return a is not b
+            if isinstance(op, ast.Eq):
+                return a == b
+            if isinstance(op, ast.NotEq):
+                return a != b
+        if isinstance(t, ast.Constant):
+            return bool(t.value)
+        if isinstance(t, ast.UnaryOp) and isinstance(t.op, ast.Not):
+            r = const_test(t.operand)
+            return None if r is None else not r
+        return None
+
+    out = []
+
+    def run(stmts):
+        for st in stmts:
+            if isinstance(st, ast.Assign) and len(st.targets) == 1 and isinstance(st.targets[0], ast.Name):
+                env[st.targets[0].id] = S().visit(_clone(st.value))
+            elif isinstance(st, ast.If):
+                r = const_test(st.test)
+                if r is None:
+                    raise AnalysisError(f"unrecognised idiom: table loop with a test that is not constant per row: {norm(st.test)}")
+                run(st.body if r else st.orelse)
+            elif isinstance(st, ast.Expr) and isinstance(st.value, ast.Call) and isinstance(st.value.func, ast.Name) and st.value.func.id == "setattr":
+                c = st.value
+                nm = S().visit(_clone(c.args[1]))
+                if not (isinstance(nm, ast.Constant) and isinstance(nm.value, str)):
+                    raise AnalysisError(f"unrecognised idiom: setattr with a computed name `{norm(c.args[1])}` in a table loop")
+                val = S().visit(_clone(c.args[2]))
+                ast.fix_missing_locations(val)
+                from sa.core import set_parents
+
+                set_parents(val)
+                out.append((nm.value, val))
+            elif isinstance(st, (ast.Pass, ast.Expr)):
+                continue
+            else:
+                raise AnalysisError(f"unrecognised idiom: statement `{norm(st)[:60]}` in a table loop")
+
+    run(loop.body)
+    return out
 
 
 def namespace_params(cls):
